@@ -9,7 +9,7 @@
         fold_free (read0 (vertex_writes free bnd U V Ub Vb)) fs = true,
      i.e. all triangles have one strict orientation - on a target that is convex but not strictly convex (the square)
      provided no triangle has its three vertices on one side of the target.
-   What IS proved: C17_fold_free_partial below (the certificate accepted by a run is an exact solution and the boolean
+   What IS proved: C17_fold_free_checker_soundness_partial below (the certificate accepted by a run is an exact solution and the boolean
    orientation test means what it says), together with border placement, the harmonic property, the maximum principle
    and the agreement of the outputs.  The run-time orientation test on generated disks is evidence, not proof. *)
 From Coq Require Import ZArith QArith Qreals Rdefinitions List Bool.
@@ -17,7 +17,7 @@ Import ListNotations.
 Require Import MV.Lib.Base MV.C17.Gen MV.C17.Model.
 Require Import MV.C17.Proofs_Gate MV.C17.Proofs_Border MV.C17.Proofs_Circle MV.C17.Proofs_Lap MV.C17.Proofs_Harmonic
                MV.C17.Proofs_Max MV.C17.Proofs_Scatter MV.C17.Proofs_Cert MV.C17.Proofs MV.C17.Run MV.C17.Proofs_Scaled
-               MV.C17.Proofs_Run.
+               MV.C17.Proofs_Run MV.C17.Proofs_Disk.
 Open Scope Z_scope.
 Open Scope Q_scope.
 
@@ -129,8 +129,10 @@ Theorem C17_max_principle_partial : forall fs use_cotan cot free bnd U V Ub Vb,
 Proof. exact max_principle. Qed.
 Print Assumptions C17_max_principle_partial.
 
-(* PARTIAL (Tutte/Floater's theorem itself is not proved): what a run's accepted certificate establishes *)
-Theorem C17_fold_free_partial : forall fs use_cotan cot free bnd Ub Vb D NU NV,
+(* PARTIAL - this is ONLY the soundness of the per-case checker (Tutte/Floater's theorem itself is not proved): IF the
+   certificate check and the boolean orientation test accept, THEN the certificate is an exact solution and its triangles
+   are strictly co-oriented.  It says nothing about disks that were not checked. *)
+Theorem C17_fold_free_checker_soundness_partial : forall fs use_cotan cot free bnd Ub Vb D NU NV,
   let T := lap_triplets fs use_cotan cot in
   check_cert_with rhs_U T free bnd (comp_list U_border_data [] [] Ub Vb) D NU = true ->
   check_cert_with rhs_V T free bnd (comp_list V_border_data [] [] Ub Vb) D NV = true ->
@@ -140,13 +142,14 @@ Theorem C17_fold_free_partial : forall fs use_cotan cot free bnd Ub Vb D NU NV,
   fold_free p fs = true ->
   is_solution_U T free bnd Ub Vb U /\ is_solution_V T free bnd Ub Vb V /\
   ((forall f, In f fs -> 0 < face_det p f) \/ (forall f, In f fs -> face_det p f < 0)).
-Proof. exact fold_free_partial. Qed.
-Print Assumptions C17_fold_free_partial.
+Proof. exact fold_free_checker_soundness_partial. Qed.
+Print Assumptions C17_fold_free_checker_soundness_partial.
 
 (* PARTIAL, about the per-run check itself: a case accepted by [check_ok] carries an exact solution of the model's
    partitioned system and - where the property promises it and the exact orientation was evaluated - all triangles
    of that exact solution have one strict orientation (the run evaluates the sign on D * positions; this theorem
-   transfers it to the positions).  This is a statement about each CHECKED case, not about all disks. *)
+   transfers it to the positions); with uniform weights every interior vertex of the exact solution lies in the convex
+   hull of the border positions (the premises of the maximum principle are checked by [disk_links_b]).  This is a statement about each CHECKED case, not about all disks. *)
 Theorem C17_fold_free_checked_case_partial : forall c : tcase, check_ok c = true ->
   let B := border_data c in
   let Ub := map fst B in
@@ -157,7 +160,8 @@ Theorem C17_fold_free_checked_case_partial : forall c : tcase, check_ok c = true
   let p := read0 (vertex_writes (o_free c) (o_bnd c) U V Ub Vb) in
   is_solution_U T (o_free c) (o_bnd c) Ub Vb U /\ is_solution_V T (o_free c) (o_bnd c) Ub Vb V /\
   (promised c (fun v => znth (tabulate (exact_vertex_map c) (c_nv c)) v zero2) = true -> k_exact_orient c = true ->
-   (forall f, In f (c_faces c) -> 0 < face_det p f) \/ (forall f, In f (c_faces c) -> face_det p f < 0)).
+   (forall f, In f (c_faces c) -> 0 < face_det p f) \/ (forall f, In f (c_faces c) -> face_det p f < 0)) /\
+  (c_cotan c = false -> forall i, In i (o_free c) -> in_hull (map p (o_bnd c)) (p i)).
 Proof. exact check_ok_establishes. Qed.
 Print Assumptions C17_fold_free_checked_case_partial.
 
@@ -217,3 +221,22 @@ Theorem C17_hull_in_unit_square : forall pts x,
   0 <= fst x /\ fst x <= 1 /\ 0 <= snd x /\ snd x <= 1.
 Proof. exact hull_in_box. Qed.
 Print Assumptions C17_hull_in_unit_square.
+
+(* the boolean test evaluated on every checked case reflects the combinatorial premises of the maximum principle *)
+Theorem C17_disk_links_reflect : forall fs cot free bnd, disk_links_b fs cot free bnd = true ->
+  NoDup (free ++ bnd) /\
+  (forall i j w, In i free -> In (j, w) (nbrs 0 fs cot i) -> In j free \/ In j bnd) /\
+  (forall i, In i free -> linked (fun i => nbrs 0 fs cot i) bnd i).
+Proof. exact disk_links_sound. Qed.
+Print Assumptions C17_disk_links_reflect.
+
+(* maximum principle, uniform weights, premises discharged by the boolean test: no combinatorial hypothesis is left *)
+Theorem C17_max_principle_uniform_checked_partial : forall fs cot free bnd U V Ub Vb,
+  disk_links_b fs (cot_opt false cot) free bnd = true ->
+  length Ub = length bnd -> length Vb = length bnd ->
+  let T := lap_triplets fs false cot in
+  is_solution_U T free bnd Ub Vb U -> is_solution_V T free bnd Ub Vb V ->
+  let p := pos free bnd U V Ub Vb in
+  forall i, In i free -> in_hull (map p bnd) (p i).
+Proof. exact max_principle_uniform_checked. Qed.
+Print Assumptions C17_max_principle_uniform_checked_partial.
